@@ -43,7 +43,10 @@ def ops_strategy():
     # an empty FIN at offset 0 fixes the final size at 0 (a falsy value): whatever follows on that stream exceeds it
     fin0 = st.tuples(st.just("stream"), st.sampled_from(["p-bidi0", "p-bidi0", "p-bidi1", "p-uni0"]), st.just("stream"), st.just("zero"), st.just(0), st.just(True))
     follow = st.tuples(st.just("stream"), st.sampled_from(["p-bidi0", "p-bidi0", "p-bidi1", "p-uni0"]), st.just("stream"), st.sampled_from(["small", "half", "lim"]), st.sampled_from([1, 10]), st.booleans())
-    return st.lists(st.one_of(stream, stream, stream, reset, simple, fin0, follow), min_size=2, max_size=16)
+    # the peer's acknowledgement leaves out the packets in which the SUT raised a limit (they count as lost and the SUT owes a retransmission), and
+    # the same packet goes on with a frame that relies on the raised limit: the limit was advertised, losing its packet does not take it back
+    lossy = st.tuples(st.just("lossy_ack"), st.one_of(stream, reset, reset))
+    return st.lists(st.one_of(stream, stream, stream, reset, simple, fin0, follow, lossy), min_size=2, max_size=16)
 
 
 class Credit:
@@ -114,6 +117,7 @@ def run_history(ctx, case):
         dead = [False]
         nontrivial = [False]
         last_pkt = [None]
+        prefix = []  # frames that go in front of the next STREAM / RESET_STREAM frame, in the same packet
         p_bidi = 0 if not sut_is_client else 1  # first stream id the peer P can open (bidi)
         p_uni = 2 if not sut_is_client else 3
 
@@ -208,7 +212,8 @@ def run_history(ctx, case):
 
         def send_and_check(step, frame, sid, end, fin, is_reset, data_len=0, offset=0):
             broken, silent = judge(step, sid, end, fin, is_reset, None)
-            pn = sut_call("receive_datagram", tk.send_frames, [frame])
+            pn = sut_call("receive_datagram", tk.send_frames, prefix + [frame])
+            del prefix[:]
             last_pkt[0] = frame
             if dead[0]:
                 return
@@ -264,6 +269,21 @@ def run_history(ctx, case):
                 break
             kind = op[0]
             cls.add("op:" + kind)
+            if kind == "lossy_ack":
+                for _ in range(8):
+                    sut_call("receive_datagram", tk.send_frames, [{"name": "ping"}])
+                    observe()
+                if dead[0] or close_code() is not None:
+                    break
+                app = [v for v in tk.sut_packets if v.space == "app" and v.pn is not None]
+                raising = {v.pn for v in app if any(f["name"] in ("max_data", "max_stream_data", "max_streams_bidi", "max_streams_uni") for f in v.frames or [])}
+                f = tk.ack_frame([v.pn for v in app if v.pn not in raising])
+                if f is not None:
+                    prefix.append(f)
+                    if raising and max(raising) + 3 <= max(v.pn for v in app):
+                        cls.add("lossy-ack:limit-raising-packet-declared-lost")
+                op = op[1]
+                kind = op[0]
             if kind == "stream":
                 _, ref, which, rel, ln, fin = op
                 sid = resolve_stream(ref)
